@@ -138,7 +138,9 @@ def classify(d):
         return 'volatile-lost'
     if 'bytes' in d and 'None' in d:
         return 'variable-value-lost'
-    return 'other: ' + d[:60]
+    import re
+    tags = re.findall(r'<([a-z]+)>', d)
+    return 'structural-difference' + (' in ' + tags[-1] if tags else '') if d.startswith('module') else 'other: ' + d[:60]
 
 
 # ---------------------------------------------------------------- JSON rendering
@@ -206,7 +208,7 @@ def corpus_modules(irgen, irimport):
     rng = random.Random(1600)
     mods = []
     k = 0
-    while len(mods) < 24 and k < 200:
+    while len(mods) < 16 and k < 200:
         feats = None if k % 2 else tuple(f for f in irgen.ALL_FEATURES if f != 'shuffle')
         m = irgen.gen_module(rng, size=1 + k % 3, features=feats, name='c%d' % k)
         k += 1
@@ -237,6 +239,8 @@ def run(ctx):
     import irimport
     from ppci import ir, irutils
     from ppci.irutils import io as irio
+    import logging
+    logging.getLogger('verifier').setLevel(logging.ERROR)
 
     regen(ctx)
     ok, _ = ctx.build(['Proofs/C16_irjson.vo'])
@@ -262,7 +266,7 @@ def run(ctx):
     cfg = cfg_term(flags)
 
     # ---- 2. correspondence on generated modules
-    n = 60 if ctx.quick() else 400
+    n = 40 if ctx.quick() else 400
     cases, recs = [], []
     nontriv = 0
     dist = {'writer_ok': 0, 'writer_exc': 0, 'rt_ok': 0, 'rt_exc': 0}
@@ -279,8 +283,6 @@ def run(ctx):
         except Exception:   # noqa: BLE001
             wv = Internal
             dist['writer_exc'] += 1
-        cases.append(('to_dict %s %s' % (cfg, term), wv))
-        recs.append(('to_dict', m))
         try:
             m2 = real_roundtrip(irutils, m)
             rv = OkV(irimport.module_to_py(m2, allow_dangling=True))
@@ -289,14 +291,14 @@ def run(ctx):
         except Exception:   # noqa: BLE001
             rv = Internal
             dist['rt_exc'] += 1
-        cases.append(('roundtrip %s %s' % (cfg, term), rv))
-        recs.append(('roundtrip', m))
+        cases.append(('let m := %s in (to_dict %s m, roundtrip %s m)' % (term, cfg, cfg), (wv, rv)))
+        recs.append(('to_dict+roundtrip', m))
     ctx.cov['distinct_nontrivial'] += nontriv
     ctx.cov['stages']['correspondence_distribution'] = dist
     for m in mods[len(wit)::max(1, n // 6)][:6]:
         ctx.note_sample({'module': m.name, 'stats': m.stats()})
     if ctx.build(['Model/IrJson.vo'])[0]:
-        bad = ctx.run_cases('irjson', ['Lib.Json', 'Spec.IRSyntax', 'Model.IrJson'], cases, shard=40)
+        bad = ctx.run_cases('irjson', ['Lib.Json', 'Spec.IRSyntax', 'Model.IrJson'], cases, shard=12)
         if bad:
             for i in bad[:4]:
                 ctx.log('model/implementation disagree:', recs[i][0], 'module', recs[i][1].name)
@@ -322,6 +324,8 @@ def search(ctx, deep=False):
     import irimport
     from ppci import irutils
     from ppci.irutils import io as irio
+    import logging
+    logging.getLogger('verifier').setLevel(logging.ERROR)
     n = 1500 if deep else 250
     rng = random.Random(ctx.seed * 7919 + 16)
     classes = {}
